@@ -137,10 +137,18 @@ Definition target_const (c : const) : pyexpr :=
   | CStr s => PConstant (KStr s)
   end.
 
+(** Names that the generated verification code uses itself. *)
+Definition reserved_var (p : text) : bool :=
+  text_eqb p (s2l "that") || text_eqb p (s2l "aas_types") || text_eqb p (s2l "aas_constants").
+
 (** [_InvariantTranspiler.transform_name] *)
 Definition transpile_name (G : tyenv) (x : text) : outcome pyexpr unit :=
   if mem_text x (g_loopvars G) then
-    match pyname G NVar x with Ok p => Ok (PName p) | Err e => Err e | Crash k => Crash k end
+    match pyname G NVar x with
+    | Ok p => if reserved_var p then err   (* would shadow the instance or a module *)
+              else Ok (PName p)
+    | Err e => Err e | Crash k => Crash k
+    end
   else if text_eqb x (s2l "self") then Ok (PName (s2l "that"))
   else if mem_text x (g_consts G) then
     match pyname G NConst x with
